@@ -97,7 +97,10 @@ func Program(thorough bool) diffrun.Program {
 	}
 	// labels named like reserved words
 	b.WriteString("\tn := 0\n")
-	for _, w := range []string{"class", "delete", "do", "in", "new", "this", "with", "let", "a", "b"} {
+	for _, w := range []string{"class", "delete", "do", "in", "new", "this", "with", "let", "a", "b", "été", "größe", "_under", "_", "λ", "名前", "x1", "$"[:0] + "dollar"} {
+		if w == "_" {
+			continue
+		}
 		fmt.Fprintf(&b, "%s:\n\tfor i := 0; i < 3; i++ {\n\t\tfor {\n\t\t\tn++\n\t\t\tif i == 1 {\n\t\t\t\tcontinue %s\n\t\t\t}\n\t\t\tbreak %s\n\t\t}\n\t}\n", w, w, w)
 	}
 	b.WriteString("\treturn total + Int(n)\n}\n\n")
